@@ -66,6 +66,13 @@ def mode_lwl(p):
         C, D, N = rs.randint(1, 4), rs.randint(1, 4), rs.randint(1, 5)
         m = mk(C, D, seed)
         x = rs.normal(size=(N, D)) * 2 + 3
+        if seed % 5 == 4:
+            # realistic feature dimensions and variance scales (60-90 features, variances ~1e-6 or ~1e4)
+            D = int(rs.randint(60, 90))
+            m = mk(C, D, seed)
+            m.variance_thresholds = 1e-12
+            m.variances = rs.uniform(0.5, 2.0, size=(C, D)) * float(rs.choice([1e-6, 1e4]))
+            x = m.means[rs.randint(0, C, size=N)] + rs.normal(size=(N, D)) * np.sqrt(m.variances[0])
         got = m.log_weighted_likelihood(x)
         exp = ref_lwl(x, m.weights, m.means, m.variances)
         if not close(got, exp):
@@ -81,6 +88,13 @@ def mode_ll(p):
         C, D, N = rs.randint(1, 4), rs.randint(1, 4), rs.randint(1, 5)
         m = mk(C, D, seed)
         x = rs.normal(size=(N, D)) * 2 + 3
+        if seed % 5 == 4:
+            # realistic feature dimensions and variance scales (60-90 features, variances ~1e-6 or ~1e4)
+            D = int(rs.randint(60, 90))
+            m = mk(C, D, seed)
+            m.variance_thresholds = 1e-12
+            m.variances = rs.uniform(0.5, 2.0, size=(C, D)) * float(rs.choice([1e-6, 1e4]))
+            x = m.means[rs.randint(0, C, size=N)] + rs.normal(size=(N, D)) * np.sqrt(m.variances[0])
         for variant in ("batch", "single", "dask"):
             if variant == "batch":
                 got = m.log_likelihood(x)
